@@ -127,9 +127,35 @@ def main():
             else:
                 violation = ("miri", v, sig)
 
+    # ---------------------------------------------------------------- miri-sim, capture build
+    # the same scenarios with anstream's `test` feature on: the print macros then take their
+    # capture path (render, then std::print!/eprint!), which is what every `cargo test` build sees
+    crep = None
+    if have_miri and violation is None:
+        cap_n = int(os.environ.get("VERIF_C19_CAPTURE_SEEDS", 24 if tier == "quick" else 256))
+        crep_path = f"{VERIF}/target/tmp/c19-miricap-report-{os.getpid()}.json"
+        r = subprocess.run([f"{VERIF}/target/miri/release/c19-miri", "drivecap", str(seed), str(cap_n), crep_path], env=ENV)
+        try:
+            crep = json.load(open(crep_path))
+            os.remove(crep_path)
+        except Exception as e:  # noqa
+            harness_error(f"miri-sim (capture build) produced no report (exit {r.returncode}): {e}")
+        if crep.get("harness_error"):
+            harness_error("miri-sim (capture build): " + str(crep["harness_error"]))
+        if crep.get("violation"):
+            v = crep["violation"]
+            v.setdefault("scenario", "print scenario, capture build (anstream feature `test`)")
+            sig = signature("miri", v)
+            hit = [k for k in known if f"sig={sig}" in k]
+            if hit:
+                print(f"KNOWN-FINDING: {hit[0]}")
+                known_hits.append(hit[0])
+            else:
+                violation = ("miricap", v, sig)
+
     wall = time.time() - start
     shuttle_execs = srep["executions"]
-    miri_execs = mrep["executions"] if mrep else 0
+    miri_execs = (mrep["executions"] if mrep else 0) + (crep["executions"] if crep else 0)
     hours = max(wall / 3600.0, 1e-9)
     samples = []
     if violation:
@@ -170,6 +196,13 @@ def main():
                 "wall_s": mrep["wall_s"],
                 "digest": mrep["digest"],
             } if mrep else None),
+            "miri_sim_capture_build": ({
+                "executions": crep["executions"],
+                "inconclusive_unsupported_by_miri": crep.get("inconclusive_unsupported_by_miri", 0),
+                "distinct_record_orders": crep.get("distinct_frame_orders", 0),
+                "wall_s": crep["wall_s"],
+                "note": "the same program built with anstream's `test` feature: print!/println!/eprint!/eprintln! go through the capture path",
+            } if crep else None),
             "engines_skipped": engines_skipped,
             "runs_per_hour": int((shuttle_execs + miri_execs) / hours),
             "seeds_per_hour": int((srep["scenarios"] + miri_execs) / hours),
@@ -213,9 +246,9 @@ def main():
                 "replay_cmd": f"{VERIF}/check replay {path}",
             }
         else:
-            path = f"{VERIF}/replays/C19-miri-{seed}-{v['miri_seed']}.json"
+            path = f"{VERIF}/replays/C19-{engine}-{seed}-{v['miri_seed']}.json"
             doc = {
-                "property": "C19", "engine": "miri", "violation_class": v["class"], "violation_detail": v["detail"],
+                "property": "C19", "engine": engine, "violation_class": v["class"], "violation_detail": v["detail"],
                 "trace_signature": sig,
                 "miri_seed": v["miri_seed"], "preemption_rate": v["preemption_rate"], "scenario_seed": v["scenario_seed"],
                 "scenario": v["scenario"], "stdout": v["stdout"], "stderr": v["stderr"],
